@@ -1647,10 +1647,11 @@ class RawAlgorithmsMixIn:
         if order != 'C':
             raise NotImplementedError('should implement that')
 
-        if isinstance(newshape,int):
-            newshape = (newshape,)
+        if numpy.isscalar(newshape):
+            # a plain int or an integer taken from an array
+            newshape = (int(newshape),)
 
-        return numpy.reshape(a_data, a_data.shape[:2] + newshape)
+        return numpy.reshape(a_data, a_data.shape[:2] + tuple(newshape))
 
     @classmethod
     def _pb_reshape(cls, ybar_data, x_data, y_data,  out=None):
